@@ -185,7 +185,7 @@ func (c *compiler) mangledNameDecl(decl ast.Declaration) string {
 		if ast.IsGenericInstantiation(decl) {
 			declName += "_generic_"
 			for _, p := range decl.Parameters {
-				declName += strings.ReplaceAll(p.Type.Type.String(), " ", "_")
+				declName += c.uniqueTypeName(p.Type.Type)
 			}
 		}
 	case *ast.VarDecl:
@@ -199,6 +199,21 @@ func (c *compiler) mangledNameDecl(decl ast.Declaration) string {
 	mangledName := mangledNameBase(declName, decl.Module())
 	mangledNamesCacheDecl.Store(decl, mangledName)
 	return mangledName
+}
+
+// returns a name for t that is unique across modules
+// declared types (Kombinationen, Typdefinitionen) are only unique
+// together with the module they were declared in, so their mangled name is used
+func (c *compiler) uniqueTypeName(t ddptypes.Type) string {
+	t = ddptypes.GetUnderlying(t)
+	if listType, isList := t.(ddptypes.ListType); isList {
+		return c.uniqueTypeName(listType.ElementType) + "_Liste"
+	}
+	_, isDeclared := c.typeMap[t]
+	if _, isCached := mangledNamesCacheType.Load(t); isDeclared || isCached {
+		return c.mangledNameType(t)
+	}
+	return strings.ReplaceAll(t.String(), " ", "_")
 }
 
 // returns the mangled name of a struct type
@@ -218,7 +233,7 @@ func (c *compiler) mangledNameType(t ddptypes.Type) string {
 	if structType, isStruct := ddptypes.CastStruct(ddptypes.TrueUnderlying(t)); isStruct {
 		parent, types := ddptypes.InstantiatedFrom(structType)
 		if parent != nil {
-			name = strings.Join(mapSlice(types, ddptypes.Type.String), "-") + "-" + structType.String()
+			name = strings.Join(mapSlice(types, c.uniqueTypeName), "-") + "-" + structType.String()
 		}
 	}
 
